@@ -566,6 +566,7 @@ func checkC20(c *Ctx) (string, error) {
 			c.Undecided("R20.3", "downloadAndExtractArchive formats", fd.Pos(), fmt.Sprintf("%d extractor calls found, expected 3 formats", nex))
 		}
 	}
+	checkStagingAndTarErrors(c, p)
 	return "C20 (structural): local taint from archive entry names (tar.Header.Name/Linkname, zip.File.Name) to every fs-creating call in internal/crosscompile, each required to be dominated (CFG, all paths) by a cleaned-join + destination-prefix-with-separator guard whose failing edge returns an error; external tar argv; download/extract protocol (lock, re-check, temp dir, publish by rename, lock release on all exits); tar/zip sibling agreement on parent-directory creation. NOT decided: byte-for-byte content; outcome of concurrent requests beyond the protocol shape; confinement inside the external tar binary (assumed: GNU/BSD tar strip leading / and refuse .. by default).", nil
 }
 
